@@ -26,7 +26,7 @@ DEFAULT_PROFILE = dict(
     subscript_whole_array_results=True, raise_=True, nested_calls=True,
     persistent_arrays=True, name_pool="plain", zero_trip=True, negative_consts=True,
     dead_code=True, cond_in_call_args=True, bare_power=True, ne_operator=True,
-    pow_of_pow=True, loop_bound_vars=True, fresh_names=False, lookups=False, complex_vars=False, assign_all_state=False, time_advance=True, force_phases=None, extra_kinds=(), zero_arg_calls=True, builtin_set=None, yield_uvec_only=False, matmul_only=False, yield_call_free=False, minmax_loop_counter=True, builtin_kwargs=True, uvfn_boost=False,
+    pow_of_pow=True, loop_bound_vars=True, fresh_names=False, lookups=False, complex_vars=False, assign_all_state=False, time_advance=True, force_phases=None, extra_kinds=(), zero_arg_calls=True, builtin_set=None, yield_uvec_only=False, matmul_only=False, yield_call_free=False, minmax_loop_counter=True, builtin_kwargs=True, uvfn_boost=False, kw_reverse=True, triangular=True, recall=True,
     real_temps=None, uvec_temps=None, arr_temps=None, flag_temps=None, int_temps=None,
 )
 
@@ -558,13 +558,30 @@ class Gen:
         self.features.add("array")
         return ops
 
-    def op_array_write(self):
+    def op_triangular(self, depth):
+        """A loop nest whose inner bound depends on the outer counter (creates a suitable array first
+        when there is none)."""
+        if not (self.p["arrays"] and self.p["loops"] and self.p["triangular"]):
+            return []
+        pre = []
+        big = [a for a in self.names_of("arr_indexable") if self.defined[a][1] >= 4]
+        if not big:
+            pre = self.op_new_array(depth, force_len=self.choice([4, 6]))
+            if not pre:
+                return []
+            big = [pre[0][1][0]]
+        return pre + self.op_array_write(force=(self.choice(big), True))
+
+    def op_array_write(self, force=None):
         arrs = [a for a in self.names_of("arr_indexable")]
         if not arrs:
             return []
         a = self.choice(arrs)
         n = self.defined[a][1]
         k = self.choice(["elem", "loop", "loop"] if self.p["loops"] else ["elem"])
+        if force:
+            a, k = force[0], "loop"
+            n = self.defined[a][1]
         if k == "elem":
             idx = self.index_expr(n)
             rhs = self.real_expr(2)
@@ -578,16 +595,25 @@ class Gen:
         # looped write; index is an injective function of the loop variables, the assignee is
         # read only at the element being written (no loop-carried dependence)
         self.features.add("loop")
-        two = n >= 2 and self.chance(25) and len(LOOP_VARS) >= 2
+        two = (n >= 2 and self.chance(30) and len(LOOP_VARS) >= 2) or force
         if two:
             # a[j*w + i], i in [0,w), j in [0,h), w*h <= n
             w = self.draw(st.integers(1, n))
+            if self.p["triangular"] and n >= 4 and (force or self.chance(40)):
+                w = 2 if n < 6 else self.choice([2, 3])
             h = n // w
             self.loop_env["i"] = (0, w)
             self.loop_env["j"] = (0, h)
             idx = normal(["sum", normal(["prod", V("j"), C(w)]), V("i")])
             loops = [["j", C(0), C(h)], ["i", C(0), C(w)]]
-            if self.chance(50):
+            if self.p["triangular"] and h <= w and h >= 2 and (force or self.chance(50)):
+                # triangular nest: the inner bound depends on the outer counter (outer loop first)
+                if self.chance(50):
+                    loops = [["j", C(0), C(h)], ["i", C(0), normal(["sum", V("j"), C(1)])]]
+                else:
+                    loops = [["j", C(0), C(h)], ["i", V("j"), C(w)]]
+                self.features.add("triangular")
+            elif self.chance(50):
                 loops.reverse()
             self.features.add("loop2")
         else:
@@ -844,6 +870,48 @@ class Gen:
             ops.append(loop)
         return ops
 
+    def op_recall(self):
+        """The same call, spelled identically, before and after one of its operands changes."""
+        if not (self.p["calls"] and self.p["recall"]):
+            return []
+        reals = [n for n in self.names_of(REAL) if n not in ("<t>", "<dt>")]
+        uv = self.names_of(UVEC)
+        ops = []
+        use_f = bool(uv) and self.chance(40)
+        if use_f:
+            wr = [n for n in uv if n in self.UVEC_TEMPS or n in P_UVEC]
+            if not wr:
+                return []
+            x = self.choice(wr)
+            arg = normal(["prod", C(self.choice([2, 0.5, 3])), V(x)])
+            n1 = self.fresh_or_existing(UVEC, self.UVEC_TEMPS)
+            n2 = self.fresh_or_existing(UVEC, self.UVEC_TEMPS)
+            if n1 is None or n2 is None or x in (n1, n2):
+                return []
+            t = self.real_leaf()
+            call = lambda n: ["call", [n], "<func>f", [t, arg], {}]
+            upd = ["assign", x, None, normal(["sum", V(x), normal(["prod", self.coef(0), V(self.choice(uv))])]), []]
+            typ = UVEC
+        else:
+            if not reals:
+                return []
+            x = self.choice(reals)
+            arg = normal([self.choice(["sum", "prod"]), V(x), C(self.choice([2, 3, 0.5]))])
+            n1 = self.fresh_or_existing(REAL, self.REAL_TEMPS)
+            n2 = self.fresh_or_existing(REAL, self.REAL_TEMPS)
+            if n1 is None or n2 is None or x in (n1, n2):
+                return []
+            call = lambda n: ["call", [n], "<func>g", [arg], {}]
+            upd = ["assign", x, None, normal(["sum", V(x), C(self.choice([1, 2, -1, 0.5]))]), []]
+            typ = REAL
+        ops.append(call(n1))
+        self.define(n1, typ)
+        ops.append(upd)
+        ops.append(call(n2))
+        self.define(n2, typ)
+        self.features.add("recall")
+        return ops
+
     def op_time_advance(self):
         return [["assign", "<t>", None, normal(["sum", V("<t>"), V("<dt>")]), []]]
 
@@ -885,8 +953,16 @@ class Gen:
                 kinds += ["fresh"]
             if self.p["complex_vars"]:
                 kinds += ["cplx", "cplx", "cplx", "fromcplx"]
+            if self.p["recall"] and self.p["calls"]:
+                kinds += ["recall"]
+            if self.p["triangular"] and self.p["arrays"] and self.p["loops"]:
+                kinds += ["tri"]
             k = self.choice(kinds)
-            if k == "utemploop":
+            if k == "recall":
+                new = self.op_recall()
+            elif k == "tri":
+                new = self.op_triangular(depth)
+            elif k == "utemploop":
                 new = self.op_utemp_in_loop(depth)
             elif k == "fresh":
                 new = self.op_fresh()
@@ -987,6 +1063,8 @@ def methods(draw, profile=None):
         names = [x[0] for x in p["force_phases"]]
         nph = len(names)
     g.phase_names = names
+    # keyword arguments written in reverse name order (f(y=.., t=..)) in the whole method?
+    kw_reverse = bool(p["kwargs"] and p["kw_reverse"] and draw(st.integers(0, 99)) < 35)
     # persistent variables, fixed up front
     state = {}
     pers = {}
@@ -1059,7 +1137,7 @@ def methods(draw, profile=None):
         nxt = draw(st.sampled_from(names))
         if p["force_phases"]:
             nxt = p["force_phases"][i][1]
-        phases.append({"name": name, "next": nxt, "body": body})
+        phases.append({"name": name, "next": nxt, "body": body, "kw_reverse": kw_reverse})
     if p["assign_all_state"]:
         # kind inference can only type a persistent variable that is assigned somewhere
         extra = []
@@ -1072,7 +1150,8 @@ def methods(draw, profile=None):
         phases[-1]["body"] = phases[-1]["body"] + extra
     return {"phases": phases, "initial": names[0], "state": state,
             "t0": draw(st.sampled_from([0, 0, 1, 0.5, -1, -0.5, -2])), "dt0": draw(st.sampled_from([1, 0.5, 0.25, 2])),
-            "ulen": g.ulen, "features": sorted(g.features)}
+            "ulen": g.ulen, "features": sorted(g.features | ({"kw_reverse"} if kw_reverse else set())),
+            "kw_reverse": kw_reverse}
 
 
 # ---------------------------------------------------------------- structure helpers
